@@ -266,3 +266,11 @@ Fixpoint mrun_snaps (h : Z) (ms : mstate) (ops : list mop) : list (list (list (Z
       | _ => mrun_snaps h ms' tl
       end
   end.
+
+(** The other fields of a file name — host, user, process id — are parsed by
+    listLogFiles but take no part in listing, selection or removal. *)
+Record nfile := mkN { n_host : list byte; n_user : list byte; n_pid : Z; n_d : dfile }.
+
+Definition gc_names (p : list byte) (bound : Z) (l : list nfile) : list nfile :=
+  let kept := gc bound (list_files p (map n_d l)) in
+  filter (fun x => negb (is_prog p (n_d x)) || stamp_in kept (d_file (n_d x))) l.
